@@ -49,6 +49,7 @@ def run(ctx, out, budget):
             stage_a.append(list(g.sb.ops) + [{"op": "cas.views", "h": h0}, {"op": "json.save", "h": h0, "mode": "full"}])
     ia = sessions.run_impl_sessions(stage_a)
     stage_b, metas = [], []
+    index_q = {}
     for g, ops, io in zip(cases, stage_a, ia):
         xdoc, jdoc = io[-2].get("ok"), io[-1].get("ok")
         if not g.xmi_safe and jdoc is not None:
@@ -70,6 +71,14 @@ def run(ctx, out, budget):
             ops2.append({"op": "xmi.load", "ts": g.ts, "doc": d, "layout": lay2})
             ops2.append({"op": "cas.dump", "h": nh})
             meta.append(("xmi", len(ops2) - 1, lay["order"] is not None))
+            if li == 0:
+                # the index of the loaded view is keyed by the loaded (code-point) offsets: containment queries agree with the
+                # definition applied to what select returns
+                q0 = len(ops2)
+                ops2.append({"op": "cas.select", "h": nh, "type": "uima.tcas.Annotation", "by": "name"})
+                for e_ in (2, 5, 9, 14):
+                    ops2.append({"op": "cas.select_covered", "h": nh, "type": "uima.tcas.Annotation", "by": "name", "b": 0, "e": e_})
+                index_q.setdefault(len(stage_b), []).append(q0)
             nh += 1
         for li in range(nlay):
             order = rng.sample(range(len(jdoc["fss"])), len(jdoc["fss"])) if rng.random() < 0.8 else None
@@ -115,8 +124,23 @@ def run(ctx, out, budget):
             if permuted:
                 out.nontriv((k, di))
             out.count("layout:" + fmt)
+        for q0 in index_q.get(k, []):
+            sel = io2[q0]
+            if "ok" in sel:
+                alls = [(e_[0], e_[1]) for e_ in sel["ok"]]
+                for j_, e_ in enumerate((2, 5, 9, 14)):
+                    cov = io2[q0 + 1 + j_]
+                    want = sorted(x for x in alls if 0 <= x[0] and x[1] <= e_)
+                    if "ok" not in cov or sorted((c_[0], c_[1]) for c_ in cov["ok"]) != want:
+                        out.oracle_failures.append({"scenario": sc2, "op_index": q0 + 1 + j_, "what": "select_covered on the loaded CAS differs from the containment definition applied to the loaded offsets",
+                                                    "expected": want, "actual": cov})
+                        break
         if mb is not None and mb[k] is not None:
-            d = sessions.first_diff(io2, mb[k], lambda i, x: c04_canon(i, x, ops2))
+            def canon5(i, x, ops2=ops2):
+                if i < len(ops2) and ops2[i]["op"] in ("cas.select", "cas.select_covered") and isinstance(x, dict) and isinstance(x.get("ok"), list):
+                    return {"ok": sorted([e_[0], e_[1]] for e_ in x["ok"])}     # loaded structures carry no generator label
+                return c04_canon(i, x, ops2)
+            d = sessions.first_diff(io2, mb[k], canon5)
             if d is not None:
                 out.disagreements.append({"scenario": sc2, "op_index": d, "op": {kk: vv for kk, vv in ops2[d].items() if kk != "doc"} if d < len(ops2) else None,
                                           "impl": io2[d] if d < len(io2) else None, "model": mb[k][d] if d < len(mb[k]) else None})
